@@ -2,7 +2,7 @@
 
 ENGINES = [
     dict(name='symx', path='/verif/symx',
-         serves_properties=['C01', 'C02', 'C03', 'C04', 'C05', 'C06', 'C07', 'C10', 'C11', 'C12', 'C13', 'C14', 'C16', 'C17', 'C20'],
+         serves_properties=['C01', 'C02', 'C03', 'C04', 'C05', 'C06', 'C07', 'C08', 'C09', 'C10', 'C11', 'C12', 'C13', 'C14', 'C16', 'C17', 'C20'],
          kind_free_text='symbolic execution of the real emsarray functions on numpy/xarray object arrays of z3-backed '
                         'scalars; fork-by-re-execution path explorer; every path closed by z3 verdict queries and a '
                         'concrete replay of a model on the unmodified stack'),
@@ -188,6 +188,30 @@ CHECKS = {
         design_ref='DESIGN.md section 4, C14',
         note='That an accepted ear lies inside a concave cell (GEOS) and the pandas de-duplication / join are validated on '
              'witnesses only. Two-ears theorem assumed.',
+    ),
+    'C08': dict(
+        engine='symx',
+        technique='symbolic execution of the real clipping code on object arrays of z3 reals with a symbolic hit set; the per-variable netCDF round trip is an in-memory store contract; z3 decides value identity / blanking per cell',
+        text='All float values symbolic; every subset of intersecting cells (forked) x buffers; z3 shows that after clip / '
+             'apply_clip_mask every selected cell keeps every value in the original relative order, every remaining '
+             'unselected cell is missing (NaN, or the fill value for integers with _FillValue / missing_value), '
+             'unmaskable integers are cropped to a window of the original, non-spatial variables, order and attributes '
+             'pass through; on meshes exactly the selected faces / edges / nodes remain in original order.',
+        design_ref='DESIGN.md section 4, C08',
+        note='The netCDF write / open_mfdataset round trip, on-disk dtypes and the saved-and-reloaded mask are validated on '
+             'witnesses (every path is replayed on real files). Three genuine defects were repaired in /repo.',
+    ),
+    'C09': dict(
+        engine='symx',
+        technique='same symbolic clip as C08 (z3-backed values, symbolic hit set, in-memory round-trip contract) with geometric postconditions; symbolic subset choice for select_variables',
+        text='For every hit subset and buffer: the result is detected as the same convention, each selected cell has its '
+             'original polygon and no new polygon appears; on meshes every connectivity variable of the input is present, '
+             'renumbered consistently (face-node, edge-node, face-edge, edge-face, face-face agree), keeps start_index, '
+             'integer type and dimension order; select_variables over every subset of the data variables leaves all '
+             'polygons identical.',
+        design_ref='DESIGN.md section 4, C09',
+        note='Geometry coordinates are concrete here (symbolic coordinates are C02/C06); reopening saved results happens in '
+             'replay on real files only.',
     ),
 }
 
